@@ -9,19 +9,19 @@ def A(tech, text, ref):
 DIFF = "proptest-generated lexer definitions compiled by the real macro, proptest-generated inputs/scripts (bounded-exhaustive + reference-guided + random), differential against an independent derivative-based reference lexer"
 CHECKS = {
     "C01": A(DIFF,
-        "Generated-input search: hundreds (quick) to thousands (thorough) of random rule sets, each run on all strings up to a length over its class alphabet plus sampled near-miss inputs; every (rule, lexeme) sequence is compared with a maximal-munch reference. Finds priority/rewind defects of density ~1 definition in 50 within seconds; no proof of absence.",
+        "Generated-input search: hundreds (quick) to thousands (thorough) of random rule sets, each run on all strings up to a length over its class alphabet plus sampled near-miss inputs; every (rule, lexeme) sequence is compared with a maximal-munch reference. Size families (60-300 rules, a dozen search tables, long literals, rewinds over 70,000 characters) and long inputs are part of every run. Finds priority/rewind defects of density ~1 definition in 50 within seconds; no proof of absence.",
         "DESIGN.md section 4, C01"),
     "C03": A(DIFF + "; plus a reference-free invariant over the observed action history (set discipline)",
         "Generated definitions with 2-6 rule sets and scripted switch/continue/return decisions; traces compared with the reference up to the first failure, and over the whole trace the invariant 'every rule that ran belongs to the set made active by the last switch or failure'. Exercises state renumbering after simplification/inlining at many offsets; no proof.",
         "DESIGN.md section 4, C03"),
     "C04": A(DIFF,
-        "Generated right contexts of every regex shape at every priority position, mixed with context-free rules; tokens, byte spans and fall-through behaviour compared with the reference; a context-bearing definition that fails to expand/compile is a violation.",
+        "Generated right contexts of every regex shape at every priority position, mixed with context-free rules; tokens, byte spans and fall-through behaviour compared with the reference; contexts of up to 520 automaton states, twin contexts `X` / `X | $` and overlapping class-ending rules are generated deliberately; a context-bearing definition that fails to expand/compile is a violation.",
         "DESIGN.md section 4, C04"),
     "C05": A(DIFF + "; every prefix of every input",
         "Every generated input is cut at every position so that the input ends inside lexemes, after matches, after rewinds and in every rule set; `$` preference, Init/non-Init end-of-input behaviour and the fused stream are compared with a reference that treats end-of-input as a virtual symbol.",
         "DESIGN.md section 4, C05"),
     "C06": A(DIFF + "; plus reference-free validity predicates (char boundaries, slice == match_(), ordered disjoint lexemes, Loc == rescan from byte 0)",
-        "Unicode alphabet (newline, tab, 2/3/4-byte, wide, zero-width) in definitions and inputs; every token, logged match_loc()/match_() and error location is checked by predicates that do not depend on the reference lexer and additionally compared with the reference.",
+        "Unicode alphabet (newline, tab, 2/3/4-byte, wide, zero-width) in definitions and inputs; every token, logged match_loc()/match_() and error location is checked by predicates that do not depend on the reference lexer and additionally compared with the reference; `_` is driven with every scalar value and with grapheme clusters whose string width differs from the sum of their character widths; some inputs exceed 65,536 bytes.",
         "DESIGN.md section 4, C06"),
     "C07": A(DIFF,
         "Fallible rules with scripted Err decisions; error kind, payload and byte location of every error up to the first InvalidToken compared with the reference; error-vs-token confusion is a mismatch.",
@@ -30,14 +30,14 @@ CHECKS = {
         "Multi-rule-set definitions with switches before failures and unlexable stretches in the inputs; everything after the first failure (spans expose the resume position, rule ids the active rule set) compared with the reference continuation from Init.",
         "DESIGN.md section 4, C08"),
     "C09": ("proptest-generated definitions of all profiles and inputs incl. arbitrary scalars, empty, repeated-character, unlexable-only and 10^4-character inputs through all constructors; oracle = bounds and absence of panic/hang (no reference)",
-        "Robustness search: no panic/abort/hang (watchdog 20 s per case against microseconds of normal run time), items <= n+1, logged actions <= n+1 (budget enforced inside actions).",
+        "Robustness search: no panic/abort/hang (watchdog 20 s per case against microseconds of normal run time), items <= n+1, logged actions <= n+1 (budget enforced inside actions); includes single attempts that read 66,000-70,000 characters before they are rewound.",
         "Trusted: rustc/cargo, proptest. Non-termination can only be observed as a budget overrun (4 orders of magnitude of slack).",
         "DESIGN.md section 4, C09"),
     "C10": A(DIFF + " on the action log kept in the user state",
         "Every action kind assigned to rules, scripted decisions; the logged invocation sequence (rule, match_loc, match_(), peek) and token spans compared with the action-protocol model; sugar forms and their explicit spellings are compared with the same reference.",
         "DESIGN.md section 4, C10"),
     "C02": A(DIFF + "; bounded-exhaustive enumeration of small regex trees",
-        "Every regex tree up to 4 (quick) / 5 (thorough) nodes over a 6-atom basis plus random larger trees (overlapping ranges, `_`, built-ins, `#`, variables) and the documented equivalent spellings, each on all 1,093 strings up to length 6 over {a,b,c} plus sampled lexemes; membership of every string decided by the generated lexer is compared with the reference language.",
+        "Every regex tree up to 4 (quick) / 5 (thorough) nodes over a 6-atom basis plus random larger trees (overlapping ranges, `_`, built-ins, `#`, variables) and the documented equivalent spellings, also 17-40-way alternations, consecutive listed characters, bridged ranges and 33-90-piece classes, printed in all three parenthesis styles; each on all 1,093 strings up to length 6 over {a,b,c}, sampled lexemes and every code point next to a class end point; membership of every string decided by the generated lexer is compared with the reference language.",
         "DESIGN.md section 4, C02"),
     "C11": A("model-based testing of RangeMap operation sequences (bounded-exhaustive + proptest random with shrinking) against a point-wise model; plus generated class expressions through the real macro, classified per code point against the oracle's interval algebra",
         "Part (a): every short operation sequence over a small universe and random long ones over the full scalar range, invariants and point-wise model equality after every operation. Part (b): random class expressions (sets, ranges, `_`, built-ins, `|`, chained `#`, variables, >9 pieces) in four compilation shapes, every boundary +-2 and random scalars classified.",
